@@ -34,6 +34,9 @@ def build(level, specs):
         p = OnDiskPartition()
         for k, v in data.items():
             p[k] = v
+        if own.get("reassign") and data:  # the first key is assigned once more (the same value)
+            k0 = next(iter(data))
+            p[k0] = value(level, k0)
     elif own["kind"] == "ddict":  # an in-memory partition over a dict subclass with a default factory
         import collections
 
